@@ -643,6 +643,20 @@ impl Gen {
                 HOp::GetOrFetch { k, size: self.size(rng) },
                 HOp::ReleaseFlush,
             ],
+            // one key on disk, another one only in the write queue (matters when the two collide on the hash)
+            10 if k != k2 => vec![
+                ins(self, rng, k),
+                HOp::EvictMem,
+                HOp::Wait,
+                HOp::HoldFlush,
+                ins(self, rng, k2),
+                HOp::EvictMem,
+                HOp::Get { k },
+                HOp::Get { k: k2 },
+                HOp::ReleaseFlush,
+                HOp::Get { k },
+                HOp::Get { k: k2 },
+            ],
             _ => vec![ins(self, rng, k), HOp::Get { k: k2 }, HOp::EvictMem, HOp::Get { k }],
         }
     }
